@@ -1,0 +1,39 @@
+//go:build verif
+
+// Contracts for deductive verification (comment-only; compiled only with -tags verif).
+package server
+
+// ---- C18 (how a shutdown is requested): the default signal waiter turns every signal it listens for into a
+// request for graceful shutdown (nil); the only error it ever returns is one that arrived on the error channel.
+// Spin then shuts down gracefully exactly when the waiter returned nil, and closes at once only on an error.
+// wsCase: index of the select case that fired (0: a signal, 1: the error channel); wsErr: what the channel delivered.
+//@ ghost var wsCase int
+//@ ghost var wsErr int
+//@ func waitSignal(errCh) r
+//@   props C18
+//@   abstract
+//@   noinline
+//@   modifies wsCase, wsErr
+//@   ghostset-at-entry wsCase = -1
+//@   assert before select: arg1 == errCh
+//@   ghostset after select: wsCase = result0
+//@   ghostset after select: wsErr = result3
+//@   top-ensures r != nil ==> wsCase == 1 && r == wsErr
+
+//@ ghost var spWaited bool
+//@ ghost var spErr bool
+//@ ghost var spDone int
+//@ func Hertz.Spin(h)
+//@   props C18
+//@   abstract
+//@   noinline
+//@   modifies spWaited, spErr, spDone
+//@   ghostset-at-entry spWaited = false
+//@   ghostset-at-entry spDone = 0
+//@   ghostset after signalWaiter: spWaited = true
+//@   ghostset after signalWaiter: spErr = (result != nil)
+//@   assert before Engine.Shutdown: spWaited && !spErr && spDone == 0
+//@   ghostset after Engine.Shutdown: spDone = 1
+//@   assert before Engine.Close: spWaited && spErr && spDone == 0
+//@   ghostset after Engine.Close: spDone = 2
+//@   top-ensures spDone != 0
